@@ -297,8 +297,9 @@ package updog
 //@ func [C15,C16,C14] OpenIndexFromBoltDatabase(db, opts) (idx, err)
 //@   requires DBOpen(db) && !db.wopen
 //@   requires forall j idx(opts) :: opts[j] != nil
-//@   modifies db.closed
-//@   ensures [C15] closed_on_error: err != nil ==> idx == nil && db.closed
+//@   modifies db.closed; heap ghost.fs
+//@   ensures [C15] closed_on_error: err != nil ==> idx == nil && db.closed && fs == funlock(old(fs), db.path)
+//@   ensures [C15] err == nil ==> fs == old(fs)
 //@   ensures [C15] err == nil ==> idx != nil && fresh(idx) && !db.closed && idx.db == db && SchemaOK(idx.schema) && idx.metrics != nil && CacheValid(idx.cache) && idx.values != nil
 //@   ensures [C16] read_only: db.committed == old(db.committed) && db.ncommits == old(db.ncommits) && !db.wopen
 //@   loop 1
@@ -307,8 +308,9 @@ package updog
 
 //@ func [C15] (*Index).Close(idx) (err)
 //@   requires idx != nil && (idx.db != nil ==> !idx.db.wopen)
-//@   modifies idx.db; heap bbolt.DB.closed at idx.db
+//@   modifies idx.db; heap bbolt.DB.closed at idx.db; heap ghost.fs
 //@   ensures [C15] old(idx.db) != nil ==> old(idx.db).closed
+//@   ensures [C15] file_released: old(idx.db) != nil && !old(idx.db.closed) ==> fs == funlock(old(fs), old(idx.db).path)
 //@   ensures [C15] idx.db == nil
 //@   ensures [C15] second_close_is_noop: old(idx.db) == nil ==> err == nil
 
@@ -369,3 +371,72 @@ package updog
 //@     invariant WriterInv(idx) && idx.mtx.held == 2 && db.ncommits >= old(db.ncommits) && shas(tx.work)
 //@     invariant !sin(tx.work, kS())
 //@     invariant forall j int :: old(db.ncommits) <= j && j < db.ncommits ==> !sin(db.commits[j], kS())
+
+//@ func [C16,C06,C05] (*IndexWriter).Flush(idx) (err)
+//@   requires WriterInv(idx) && idx.mtx.held == 0 && !flocked(fs, idx.filename)
+//@   modifies heap ghost.fs; heap bbolt.DB.committed; heap bbolt.DB.commits; heap bbolt.DB.ncommits; heap bbolt.DB.wopen; heap bbolt.DB.closed
+//@   ensures [C16] existing_file_is_not_clobbered: fexists(old(fs), idx.filename) ==> err != nil && fs == old(fs)
+//@   ensures [C15,C16] file_released: !flocked(fs, idx.filename)
+//@   ensures [C16] other_files_untouched: forall q string :: q != idx.filename ==> (fexists(fs, q) <==> fexists(old(fs), q)) && fcontent(fs, q) == fcontent(old(fs), q)
+
+//@ func [C15,C16] OpenIndex(file, opts) (idx, err)
+//@   requires !flocked(fs, file)
+//@   requires forall j idx(opts) :: opts[j] != nil
+//@   modifies heap ghost.fs; heap bbolt.DB.closed
+//@   ensures [C15] missing_file_is_error_and_not_created: !fexists(old(fs), file) ==> err != nil && fs == old(fs)
+//@   ensures [C15] released_on_error: err != nil ==> idx == nil && !flocked(fs, file)
+//@   ensures [C16] file_not_modified: fexists(old(fs), file) ==> fexists(fs, file) && fcontent(fs, file) == fcontent(old(fs), file)
+//@   ensures [C15] err == nil ==> idx != nil && idx.db != nil && !idx.db.closed && idx.db.path == file && flocked(fs, file)
+
+// ---- AddRow (C05, C18)
+//@ guarded [C18] IndexWriter.schema,values,nextRowID by mtx exclusive
+//@ guarded [C18] BigIndexWriter.schema,tempTx,nextRowID by mtx exclusive
+
+//@ pred SchemaMaps(sch *schema) := sch != nil && sch.Columns != nil
+//@   && (forall c string :: (c in sch.Columns) ==> sch.Columns[c] != nil && sch.Columns[c].Values != nil)
+
+//@ func [C05,C18] (*schema).add(sch, k, v) (result)
+//@   requires SchemaMaps(sch)
+//@   modifies sch.Columns[*]; heap map[string]uint64; heap dom[string]uint64; heap column.Values
+//@   ensures [C05] SchemaMaps(sch)
+//@   ensures [C05] (k in sch.Columns) && (v in sch.Columns[k].Values) && sch.Columns[k].Values[v] == result
+//@   ensures [C05] old((k in sch.Columns) && (v in sch.Columns[k].Values)) ==> result == old(sch.Columns[k].Values[v])
+//@   ensures [C05] !old((k in sch.Columns) && (v in sch.Columns[k].Values)) ==> result == idxOf(k, v)
+//@   ensures [C05] columns_kept: forall c string :: old(c in sch.Columns) ==> (c in sch.Columns) && sch.Columns[c] == old(sch.Columns[c])
+
+//@ func [C05,C18] (*IndexWriter).AddRow(idx, values) (rowID, err)
+//@   requires WriterInv(idx) && idx.mtx.held == 0
+//@   assumes fewer_than_2_32_rows: idx.nextRowID < 4294967295
+//@   modifies idx.nextRowID; idx.values[*]; idx.schema.Columns[*]; heap map[string]uint64; heap dom[string]uint64; heap column.Values; heap roaring.Bitmap.view
+//@   ensures [C05,C18] ids_in_call_order: err == nil && rowID == old(idx.nextRowID) && idx.nextRowID == old(idx.nextRowID) + 1
+//@   ensures [C05,C18] WriterInv(idx) && idx.mtx.held == 0
+//@   loop 1
+//@     invariant WriterInv(idx) && idx.mtx.held == 2 && idx.nextRowID == old(idx.nextRowID) && rowID == old(idx.nextRowID)
+
+// ---------------------------------------------------------------------------------------------------------------
+// writer_big.go — disk-backed writer (C05, C06, C18, C19)
+
+//@ pred BigWInv(w *BigIndexWriter) := w != nil && SchemaMaps(w.schema) && w.db != nil && w.tempDB != nil && w.db != w.tempDB
+//@   && DBOpen(w.tempDB) && w.tempDB.wopen && w.tempTx != nil && allocated(w.tempTx) && w.tempTx.gdb == w.tempDB && w.tempTx.writable && !w.tempTx.done && shas(w.tempTx.work)
+
+//@ func [C05,C18,C06] (*BigIndexWriter).AddRow(idx, values) (rowID, err)
+//@   requires BigWInv(idx) && idx.mtx.held == 0
+//@   assumes fewer_than_2_32_rows: idx.nextRowID < 4294967295
+//@   modifies idx.nextRowID; idx.tempTx; idx.schema.Columns[*]; heap map[string]uint64; heap dom[string]uint64; heap column.Values
+//@   modifies heap bbolt.Tx.work; heap bbolt.Tx.done; idx.tempDB.committed; idx.tempDB.commits; idx.tempDB.ncommits; idx.tempDB.wopen
+//@   ensures [C05,C18] ids_in_call_order: err == nil ==> rowID == old(idx.nextRowID)
+//@   ensures [C05,C18] every_call_consumes_one_id: idx.nextRowID == old(idx.nextRowID) + 1
+//@   ensures [C05,C18] err == nil ==> BigWInv(idx)
+//@   ensures [C18] idx.mtx.held == 0
+//@   ensures [C06] output_untouched: idx.db.committed == old(idx.db.committed) && idx.db.ncommits == old(idx.db.ncommits) && idx.db == old(idx.db) && idx.tempDB == old(idx.tempDB)
+//@   loop 1
+//@     invariant BigWInv(idx) && idx.mtx.held == 2 && idx.nextRowID == old(idx.nextRowID) && rowID == old(idx.nextRowID)
+//@     invariant idx.db.committed == old(idx.db.committed) && idx.db.ncommits == old(idx.db.ncommits) && idx.db == old(idx.db) && idx.tempDB == old(idx.tempDB)
+//@     invariant idx.tempTx == old(idx.tempTx)
+
+//@ func [C19,C05] (*BigIndexWriter).Close(idx) (err)
+//@   requires idx != nil && idx.mtx.held == 0 && (idx.tempTx != nil ==> idx.tempTx.gdb != nil)
+//@   modifies heap bbolt.Tx.done at idx.tempTx; heap bbolt.DB.wopen
+//@   ensures [C19] pending_transaction_finished: idx.tempTx != nil ==> idx.tempTx.done
+//@   ensures [C19] idx.tempTx != nil && idx.tempTx.writable && !old(idx.tempTx.done) ==> !idx.tempTx.gdb.wopen
+//@   ensures idx.mtx.held == 0
